@@ -203,19 +203,24 @@ var c13InspectSkipped int
 
 // full Inspect of a file holding one element; emitted only when the dispatcher's first
 // candidate is ASN1File (precedence among formats is C07's business)
-func c13Inspect(c *Ctx, tag string, f []*tnode) {
+func c13Inspect(c *Ctx, tag string, f []*tnode) { c13InspectNamed(c, tag, f, "object.bin", false) }
+
+// c13InspectNamed: the whole route from a file to its report. With anyRoute the case is emitted whatever
+// the table says about the name and the first octets (DER that begins like another format's signature,
+// DER under a conventional file name): the other format's parser refuses it, so the report is the dump.
+func c13InspectNamed(c *Ctx, tag string, f []*tnode, name string, anyRoute bool) {
 	data := encForest(f)
 	dir := filepath.Join(c.Tmp, "c13")
 	if err := os.MkdirAll(dir, 0o755); err != nil {
 		return
 	}
-	p := filepath.Join(dir, "object.bin")
+	p := filepath.Join(dir, name)
 	if err := os.WriteFile(p, data, 0o644); err != nil {
 		return
 	}
 	defer os.Remove(p)
 	cands := file.VerifCandidateParserNames(file.Info{Path: p, Size: int64(len(data))}, data)
-	if len(cands) == 0 || cands[0] != "ASN1File" {
+	if !anyRoute && (len(cands) == 0 || cands[0] != "ASN1File") {
 		c13InspectSkipped++
 		return
 	}
@@ -787,6 +792,37 @@ func genC13(c *Ctx) {
 	}
 	c13DeepCLI(c, 3000)
 	c13DeepCLI(c, 3000000)
+	// ---- DER that begins like another format's signature, or sits under a conventional name ----
+	{
+		ff := func(n int) []byte { return bytes.Repeat([]byte{0xff}, n) }
+		ssh1 := []byte("SH PRIVATE KEY FILE FORMAT 1.1\n\x00") // after 53 53: [APPLICATION 19], 83 content octets
+		putty := []byte("TTY-User-Key-File-2: ssh-rsa\n")         // after 50 75: [APPLICATION 16], 117 content octets
+		putty3 := []byte("TTY-User-Key-File-3: ssh-rsa\n")
+		magic := []*tnode{
+			prim(1, 19, append(append([]byte{}, ssh1...), ff(83-len(ssh1))...)),
+			prim(1, 16, append(append([]byte{}, putty...), ff(117-len(putty))...)),
+			prim(1, 16, append(append([]byte{}, putty3...), ff(117-len(putty3))...)),
+		}
+		for _, t := range magic {
+			c13InspectNamed(c, "foreign-signature", []*tnode{t}, "object.bin", true)
+			c13CliDump(c, "foreign-signature", []*tnode{t})
+		}
+		plain := cons(0, 16, prim(0, 2, []byte{5}), prim(0, 12, []byte("text")), cons(2, 0, prim(0, 5, nil)))
+		for _, name := range []string{"known_hosts", "authorized_keys", "id_rsa.pub", "key.ppk", "store.jks", "package.rpm", "cert.pem", "token.jwt", "a.asc", "a.gpg", "a.uuid"} {
+			c13InspectNamed(c, "conventional-name", []*tnode{plain}, name, true)
+		}
+		// text that is itself a complete PEM block, a PGP armor or an SSH key line, carried inside string values
+		pemText := "-----BEGIN DATA-----\nAAECAwQF\n-----END DATA-----\n"
+		certText := "-----BEGIN CERTIFICATE-----\nMAA=\n-----END CERTIFICATE-----\n"
+		pgpText := "-----BEGIN PGP PUBLIC KEY BLOCK-----\n\nmDMEZ\n=abcd\n-----END PGP PUBLIC KEY BLOCK-----\n"
+		for _, txt := range []string{pemText, certText, pgpText, "\n" + pemText, "ssh-ed25519 AAAAC3NzaC1lZDI1NTE5AAAAIJ example\n"} {
+			for _, tg := range []int{4, 12, 19, 22} {
+				all("embedded-text", cons(0, 16, prim(0, 19, []byte("bundle")), prim(0, tg, []byte(txt))))
+				all("embedded-text", prim(0, tg, []byte(txt)))
+				c13CliDump(c, "embedded-text", []*tnode{cons(0, 16, prim(0, tg, []byte(txt)), prim(0, 5, nil))})
+			}
+		}
+	}
 	for _, s := range c13UTCBoundary {
 		c13Value(c, "utc-boundary", 0, 23, []byte(s))
 		c13Typed(c, "boundary", 4, 0, false, 23, []byte(s))
